@@ -2,7 +2,7 @@
 //! extra[0] selects the part: "array" | "setup" | "two" (default: all)
 use crate::common::*;
 use spdcalc::dim::ucum::{RAD, S};
-use spdcalc::jsa::{FrequencySpace, JointSpectrum};
+use spdcalc::jsa::{FrequencySpace, JointSpectrum, SumDiffFrequencySpace, WavelengthSpace};
 use spdcalc::prelude::*;
 use spdcalc::utils::Steps2D;
 use spdcalc::{hom_rate, hom_rate_series, hom_two_source_rate_series, hom_two_source_time_delays, hom_two_source_visibilities, jsi_norm};
@@ -27,6 +27,55 @@ pub fn cxs(v: &[C]) -> String {
 
 fn fspace(ax: f64, bx: f64, nx: usize, ay: f64, by: f64, ny: usize) -> FrequencySpace {
   FrequencySpace::new((ax * RAD / S, bx * RAD / S, nx), (ay * RAD / S, by * RAD / S, ny))
+}
+
+/// every argument type the setup-level calls accept for their range (`R: Into<FrequencySpace>`):
+/// `FrequencySpace`, `Steps2D<Frequency>`, `WavelengthSpace`, `SumDiffFrequencySpace`
+#[derive(Clone, Copy)]
+pub enum RangeArg {
+  Freq(FrequencySpace),
+  Steps(Steps2D<Frequency>),
+  Wl(WavelengthSpace),
+  SumDiff(SumDiffFrequencySpace),
+}
+impl RangeArg {
+  pub fn pick(k: usize, fs: FrequencySpace) -> Self {
+    match k % 4 {
+      0 => RangeArg::Freq(fs),
+      1 => RangeArg::Steps(*fs.steps()),
+      2 => RangeArg::Wl(fs.as_wavelength_space()),
+      _ => RangeArg::SumDiff(fs.as_sum_diff_space()),
+    }
+  }
+  /// the signal × idler frequency grid the argument stands for (the crate's own `From` conversions)
+  pub fn frequency_space(&self) -> FrequencySpace {
+    match *self {
+      RangeArg::Freq(f) => f,
+      RangeArg::Steps(s) => FrequencySpace::from(s),
+      RangeArg::Wl(w) => FrequencySpace::from(w),
+      RangeArg::SumDiff(sd) => FrequencySpace::from(sd),
+    }
+  }
+  pub fn name(&self) -> &'static str {
+    match self {
+      RangeArg::Freq(_) => "FrequencySpace",
+      RangeArg::Steps(_) => "Steps2D<Frequency>",
+      RangeArg::Wl(_) => "WavelengthSpace",
+      RangeArg::SumDiff(_) => "SumDiffFrequencySpace",
+    }
+  }
+}
+/// call `$body` with `$r` bound to the concrete range value
+#[macro_export]
+macro_rules! with_range {
+  ($arg:expr, $r:ident => $body:expr) => {
+    match $arg {
+      $crate::fam::hom::RangeArg::Freq($r) => $body,
+      $crate::fam::hom::RangeArg::Steps($r) => $body,
+      $crate::fam::hom::RangeArg::Wl($r) => $body,
+      $crate::fam::hom::RangeArg::SumDiff($r) => $body,
+    }
+  };
 }
 
 fn raw(fs: &FrequencySpace) -> (f64, f64, usize, f64, f64, usize) {
@@ -687,7 +736,12 @@ fn setup_part(ctx: &mut Ctx) {
     let integ = Integrator::default();
     let sp = spdc.joint_spectrum(integ);
     // identical axes (the statement's grids); every third case uses the setup's own optimum range
-    let fs = if c % 3 == 2 { spdc.optimum_range(n) } else { symmetric_range(&mut ctx.rng, &spdc, n) };
+    let fs0 = if c % 3 == 2 { spdc.optimum_range(n) } else { symmetric_range(&mut ctx.rng, &spdc, n) };
+    // the range is handed over as each of the accepted argument types in turn; the reference grid is the
+    // signal × idler frequency grid that argument converts to
+    let arg = RangeArg::pick(if c % 2 == 0 { 0 } else { c / 2 }, fs0);
+    let fs = arg.frequency_space();
+    ctx.count(&format!("setup/range-arg/{}", arg.name()));
     let (ax, bx, _, ay, by, _) = raw(&fs);
     let identical = ax == ay && bx == by;
     ctx.count(&format!("setup/{}", st.name.split(',').next().unwrap_or("?")));
@@ -708,7 +762,7 @@ fn setup_part(ctx: &mut Ctx) {
     let times: Vec<Time> = delays.iter().map(|t| *t * S).collect();
     let sp2 = spdc.clone();
     let tt = times.clone();
-    let ser = guard(move || sp2.hom_rate_series(tt, fs, integ));
+    let ser = guard(move || with_range!(arg, r => sp2.hom_rate_series(tt, r, integ)));
     // K: setup-level call vs the array-level model fed with the implementation's own jsa arrays
     ctx.k(
       "hom_rate_series",
@@ -721,11 +775,11 @@ fn setup_part(ctx: &mut Ctx) {
       (Some(a), Some(b)) => a.len() == b.len() && a.iter().zip(b.iter()).all(|(x, y)| close(*x, *y, 1e-12, 1e-13) || (x.is_nan() && y.is_nan())),
       _ => false,
     };
-    let det = format!("setup={} n={} {} delays={:?}", st.name, n, gt, delays);
+    let det = format!("setup={} range_arg={} n={} {} delays={:?}", st.name, arg.name(), n, gt, delays);
     ctx.s("C09.wrapper", okw, "hom/setup-series-eq-array", &det);
     // visibility wrapper
     let sp3 = spdc.clone();
-    let vis = guard(move || sp3.hom_visibility(fs, integ));
+    let vis = guard(move || with_range!(arg, r => sp3.hom_visibility(r, integ)));
     let (vt, vv) = match vis {
       Some((t, v)) => (Some(*(t / S)), Some(v)),
       None => (None, None),
@@ -850,6 +904,10 @@ fn two_part(ctx: &mut Ctx) {
     let s1 = st1.spdc.clone();
     let js1 = s1.joint_spectrum(integ);
     let (rk, r1) = two_range(&mut ctx.rng, &s1, n);
+    // handed to the SPDC-level methods as each accepted argument type in turn
+    let arg1 = RangeArg::pick(if c % 2 == 0 { 0 } else { c / 2 }, r1);
+    let r1 = arg1.frequency_space();
+    ctx.count(&format!("two/range-arg/{}", arg1.name()));
     let (ax, bx, _, ay, by, _) = raw(&r1);
     let span = (bx - ax).abs().max((by - ay).abs());
     let t = ctx.rng.log_range(0.05, 20.0) / span.max(1.0);
@@ -875,12 +933,12 @@ fn two_part(ctx: &mut Ctx) {
       let gs = grid_str(&r1);
       let sp = s1.clone();
       let tt = times.clone();
-      let res = guard(move || sp.hom_two_source_rate_series(tt, r1, integ));
+      let res = guard(move || with_range!(arg1, r => sp.hom_two_source_rate_series(tt, r, integ)));
       let out = res.as_ref().map(|r| fls(&[r.ss.clone(), r.ii.clone(), r.si.clone()].concat())).unwrap_or("PANIC".into());
       ctx.k("hom2", &format!("{} {} {} {} {}", gs, gs, delays.len(), fls(&delays), es), &out);
       let sp = s1.clone();
-      let vis = guard(move || sp.hom_two_source_visibilities(r1, integ));
-      let det = format!("setup={} integrator={} n={} range={} {}", st1.name, format!("{:?}", integ).replace(' ', ""), n, rk, grid_txt(&r1));
+      let vis = guard(move || with_range!(arg1, r => sp.hom_two_source_visibilities(r, integ)));
+      let det = format!("setup={} range_arg={} integrator={} n={} range={} {}", st1.name, arg1.name(), format!("{:?}", integ).replace(' ', ""), n, rk, grid_txt(&r1));
       if let Some(v) = &vis {
         let z = fl(0.0);
         ctx.k(
